@@ -1,2 +1,3 @@
 //! Reference models. None of them calls the code under test.
 pub mod int;
+pub mod treehash;
